@@ -40,17 +40,27 @@ struct Mark<S> {
 impl<S> Service<Request<Bytes>> for Mark<S>
 where
     S: Service<Request<Bytes>, Response = Response<Bytes>, Error = Infallible>,
+    S::Future: Send + 'static,
 {
     type Response = Response<Bytes>;
     type Error = Infallible;
-    type Future = S::Future;
+    type Future = futures::future::BoxFuture<'static, Result<Response<Bytes>, Infallible>>;
     fn poll_ready(&mut self, cx: &mut Context<'_>) -> Poll<Result<(), Infallible>> {
         self.inner.poll_ready(cx)
     }
     fn call(&mut self, mut req: Request<Bytes>) -> Self::Future {
         let t = req.headers().get("trace").cloned().unwrap_or_default();
         req.headers_mut().insert("trace".into(), format!("{t}{},", self.id));
-        self.inner.call(req)
+        let id = self.id;
+        let fut = self.inner.call(req);
+        // the layer also marks the response: a layer applied to something that is not one of
+        // its routes (the NotFound fallback) becomes visible
+        Box::pin(async move {
+            let mut resp = fut.await?;
+            let v = resp.headers().get("via").cloned().unwrap_or_default();
+            resp.headers_mut().insert("via".into(), format!("{v}{id},"));
+            Ok(resp)
+        })
     }
 }
 
@@ -95,7 +105,8 @@ fn call(router: &Router, path: &str) -> (u64, String) {
     )
     .unwrap();
     if resp.status() == StatusCode::NotFound {
-        (0, String::new())
+        // a NotFound that passed through a layer is reported as such
+        (0, resp.headers().get("via").map(|v| format!("fallback-via:{v}")).unwrap_or_default())
     } else {
         (
             resp.headers().get("svc").and_then(|s| s.parse().ok()).unwrap_or(999),
@@ -164,6 +175,29 @@ pub fn replay(a: &Args) -> i32 {
                 }
             }
             Err(_) => mismatches.push(json!({"what": format!("routing panicked on {path:?}")})),
+        }
+    }
+    // long odd strings: multi-byte characters at every offset around typical buffer sizes
+    let layered = Router::new().route("/a", Tagged(1)).route_layer(MarkLayer(1));
+    for k in 0..200usize {
+        for fill in ["é", "\u{20ac}", "\u{1F600}", "a/"] {
+            evaluations += 1;
+            let path = format!("/{}{}", "x".repeat(k), fill.repeat(120));
+            for r in [&router, &layered] {
+                match std::panic::catch_unwind(std::panic::AssertUnwindSafe(|| call(r, &path))) {
+                    Ok((0, via)) if via.is_empty() => {}
+                    Ok((svc, via)) => {
+                        if mismatches.len() < 12 {
+                            mismatches.push(json!({"what": format!("unmatched path of {} bytes reached service {svc} / {via}", path.len())}));
+                        }
+                    }
+                    Err(_) => {
+                        if mismatches.len() < 12 {
+                            mismatches.push(json!({"what": format!("routing panicked on an unmatched path of {} bytes ({k} ascii then multi-byte)", path.len())}));
+                        }
+                    }
+                }
+            }
         }
     }
     std::panic::set_hook(default_hook);
